@@ -124,7 +124,12 @@ def readouts(ctx, c, x, model, sig, what, full=True):
                       lambda: '%s: x[%d] gives %s, the model gives %s' % (what(), i, repr(gerr) if gerr else '%s %s' % (type(got).__name__, core.short(getattr(got, 'data', got), 200)), core.short(want, 200)))
         # the same integer as NumPy hands it out (np.argmin, np.arange, an element of an index array): a list takes any object
         # with __index__
-        for ityp in ((np.int64, np.intp, np.int32) + ((np.uint8,) if i >= 0 else ()))[(i + n) % 2::2]:
+        ityps = (np.int64, np.intp, np.int32) + ((np.uint8,) if 0 <= i <= 255 else ())
+        if n > 100:      # long objects: the narrow types too, whose own arithmetic (i + n, i + 1) leaves their range
+            ityps = ityps[(i + n) % 2::2] + ((np.int8,) if -128 <= i <= 127 else ()) + ((np.uint8,) if 0 <= i <= 255 else ()) + (np.int16,)
+        else:
+            ityps = ityps[(i + n) % 2::2]
+        for ityp in ityps:
             j = ityp(i)
             try:
                 wantj, werrj = model[j], None
@@ -399,7 +404,7 @@ def run_history(ctx, p):
     sig = dict(api=c)
     model = []
     try:
-        x = from_list(c, pool[:start])
+        x = from_list(c, pool[:start] if start <= len(pool) else [pool[j_ % len(pool)] for j_ in range(start)])
         model = [np.array(v, copy=True) for v in x.data]
     except Exception as e:
         ctx.bad('state', dict(sig, kind='construct_raised', exc=type(e).__name__, n=start), 'building %s with %d elements raised %r' % (c, start, e))
@@ -751,6 +756,16 @@ def run(ctx):
                     drive(RUNNERS, ctx, 'history', dict(cls=c, start=start, ops=list(seq), pool=pools[c]))
                     if i % 9973 == 0:
                         ctx.sample(dict(case='history', cls=c, start=start, ops=list(seq)), limit=8)
+    # objects of 127 .. 257 values (the limits of the 8-bit index types; block sizes), short histories on them
+    for c in CLASSES + EXTRA:
+        for start in (127, 128, 129, 255, 256, 257):
+            i += 1
+            if not ctx.mine(i):
+                continue
+            for _ in range(ctx.scale(1, 12)):
+                alphabet = list(ops)
+                seq = [alphabet[rng.integers(len(alphabet))] for _ in range(int(rng.integers(1, 4)))]
+                drive(RUNNERS, ctx, 'history', dict(cls=c, start=start, ops=seq, pool=pools[c]))
     # (c) random long histories
     for _ in range(ctx.scale(600, 20000)):
         c = (CLASSES + EXTRA)[rng.integers(len(CLASSES) + len(EXTRA))]
